@@ -89,11 +89,11 @@ class ClampedInterp:
         return np.linalg.solve(self.A.T, integ)
 
 
-def periodic_spline(x, y, period):
-    """cubic periodic spline interpolating y at the uniform nodes x (knots at the nodes)"""
+def periodic_spline(x, y, period, k=3):
+    """periodic spline of odd degree k interpolating y at the uniform nodes x (knots at the nodes)"""
     xe = np.append(x, x[0] + period)
     ye = np.append(y, y[0])
-    return make_interp_spline(xe, ye, k=3, bc_type='periodic')
+    return make_interp_spline(xe, ye, k=k, bc_type='periodic')
 
 
 # ---------------------------------------------------------------------------
@@ -147,7 +147,7 @@ def parallel_gradient_ref(phi, eta, c, order=6):
     iota = c['iotaVal']
     for i, ri in enumerate(r):
         bz = 1.0 / np.sqrt(1.0 + (ri * iota / c['R0']) ** 2)
-        splines = [periodic_spline(q, phi[i, j, :], 2 * np.pi) for j in range(nz)]
+        splines = [periodic_spline(q, phi[i, j, :], 2 * np.pi, int(c['splineDegrees'][1])) for j in range(nz)]
         for j in range(nz):
             acc = np.zeros(nq)
             for s, wgt in zip(shifts, wts):
@@ -202,7 +202,7 @@ def vpar_advect_ref(F, speed, dt, eta, c, edge):
 def qn_ref(R, eta, c, chi, adiabatic=True, degree=7, Bfield=1.0):
     """R: real or complex density (r, theta, z) -> potential (r, theta, z), complex."""
     r, q = eta[0], eta[1]
-    p = 3
+    p = int(c['splineDegrees'][0])
     breaks = clamped_breaks(c['rMin'], c['rMax'], len(r), c['splineDegrees'][0])
     T = clamped_knots(breaks, p)
     nb = len(T) - p - 1
